@@ -356,7 +356,7 @@ func (r *runner) orderLaws(fam string, mine func(k int) bool) {
 
 func run(c *core.Ctx) {
 	harnessSyntax = func(msg string) { c.HarnessError("a generated comparison or the pool prelude does not parse: %s", msg) }
-	p := pool(c.Thorough())
+	p := pool(true)
 	c.Note("pool_size", len(p))
 	r := &runner{c: c, p: p}
 	var pairs [][2]int
